@@ -500,6 +500,7 @@ class Segment:
         self.conds = []       # (kind, args, truth, site, raw)
         self.effects = []
         self.loops = []       # (Loop, [Segment])
+        self.loop_exits = {}  # id(Loop) -> [Segment] condition-false exits
         self.order = []       # interleaved ('cond', i) / ('eff', i) / ('loop', i) for ordering queries
         self._lift()
 
@@ -519,7 +520,12 @@ class Segment:
                 for it in lp.iters:
                     era = next((x[2] for x in it.trace if x[0] == 'iter'), 0)
                     segs.append(Segment(L, it, era, self.entry, lp, self))
+                exits = []
+                for cp in lp.cond_paths:
+                    era = next((x[2] for x in cp.trace if x[0] == 'iter'), 0)
+                    exits.append(Segment(L, cp, era, self.entry, lp, self))
                 self.loops.append((lp, segs))
+                self.loop_exits[id(lp)] = exits
                 self.order.append(('loop', len(self.loops) - 1))
             else:
                 eff = self.effect_of(e)
@@ -586,11 +592,13 @@ class Segment:
             if L.counter is not None and loc == L.counter:
                 return Effect('CNT', site, delta=self.delta(val, loc), val=val, also_part=False)
             if L.part is not None and loc == L.part:
-                d = None
-                if isinstance(val, tuple) and val[0] == 'adv' and val[2] == ld0(L.part):
-                    d = val[1]
-                elif val == ld0(L.part):
-                    d = 0
+                # net number of ++/-- applied to the entry value (nested adv terms when the list changed in between)
+                d, v = 0, val
+                while isinstance(v, tuple) and v[0] == 'adv':
+                    d += v[1]
+                    v = v[2]
+                if v != ld0(L.part):
+                    d = None
                 return Effect('PART', site, delta=d, val=val)
             fe = L.field_of_elem(loc)
             if fe is not None:
